@@ -733,10 +733,7 @@ func (t *tr) convert(arg ast.Expr, to ltype, at ast.Node) string {
 	case from.c == tNat && to.c == tInt:
 		return wrap(to, fmt.Sprintf("(Int.ofNat %s)", x))
 	case from.c == tInt && to.c == tNat:
-		if from.width > 0 {
-			break // uint(negative int8) is not modelled
-		}
-		return fmt.Sprintf("%s.toNat", x)
+		break // uint(negative) wraps in Go; constants never get here (they are folded)
 	}
 	t.fail(at, "conversion %s -> %s", from.lean(), to.lean())
 	return "?"
@@ -754,7 +751,8 @@ func (t *tr) shiftAmount(e ast.Expr) string {
 	case tBV:
 		return "(" + x + ").toNat"
 	case tInt:
-		return "(" + x + ").toNat"
+		t.fail(e, "shift by a signed non-constant amount (Go panics on a negative count)")
+		return "?"
 	}
 	t.fail(e, "shift amount type")
 	return "?"
@@ -790,12 +788,18 @@ func (t *tr) binary(e *ast.BinaryExpr, rt ltype) string {
 		return wrap(rt, "("+l+" - "+r+")")
 	case token.MUL:
 		return wrap(rt, "("+l+" * "+r+")")
-	case token.QUO:
-		if lt.c == tInt {
-			return wrap(rt, "(Int.tdiv "+l+" "+r+")")
+	case token.QUO, token.REM:
+		// Go panics on a zero divisor, Lean's division returns 0: only divisors that are non-zero constants
+		if dv := t.p.info.Types[e.Y].Value; dv == nil || constant.Sign(constant.ToInt(dv)) == 0 {
+			t.fail(e, "division by something that is not a non-zero constant")
+			return "?"
 		}
-		return "(" + l + " / " + r + ")"
-	case token.REM:
+		if e.Op == token.QUO {
+			if lt.c == tInt {
+				return wrap(rt, "(Int.tdiv "+l+" "+r+")")
+			}
+			return "(" + l + " / " + r + ")"
+		}
 		if lt.c == tInt {
 			return "(Int.tmod " + l + " " + r + ")"
 		}
@@ -1229,6 +1233,10 @@ func (t *tr) forLoop(s *ast.ForStmt, cont func() string) string {
 	}
 	state := map[string]ltype{}
 	t.assigned(s.Body.List, state)
+	if _, bad := state[safe(iv.Name)]; bad {
+		t.fail(s, "loop variable %s is modified in the body", iv.Name)
+		return "?"
+	}
 	var svars []string
 	for k := range state {
 		svars = append(svars, k)
